@@ -245,6 +245,114 @@ def outScore (o : List (OutEntry W F)) : List W → W → F
 
 end Lin
 
+/-! ## Pass 2 as the code runs it: `Recurse::SameContext` / `ExtendContext` over streams
+
+One stream of records per order (order 2 first), each sorted in `ContextOrder`.  `SameContext`
+consumes the records of one context from the head of its stream, computes `z` from the `z_lower`
+handed down, writes the normalised probabilities and the back-off, and calls the next order's
+`ExtendContext`, which loops while the head of *its* stream extends the context to the left.
+The functions take fuel (one unit per call); `Proofs/InterpStream.lean` shows how much suffices. -/
+section Stream
+variable {W : Type} [DecidableEq W]
+variable {F : Type} [Zero F] [One F] [Add F] [Sub F] [Mul F] [Div F]
+
+/-- a record of a merged-probability stream: `(context, word)` -/
+abbrev Rec (W : Type) := List W × W
+
+/-- what pass 2 writes -/
+inductive Ev (W F : Type) where
+  | prob : List W → W → F → Ev W F      -- `ProbWrite()` for n-gram `ctx ++ [w]` (linear value)
+  | bo   : List W → F → Ev W F          -- `backoff_out_` for n-gram `ctx` (linear value)
+
+/-- `z` of one `SameContext` call from `z_lower` and the words consumed -/
+def zStep (E : Rat → F) (cs : Comps W) (c : List W) (zl : F) (xs : List W) : F :=
+  E (bsum cs c) * zl + (xs.map (fun x => E (usum cs c x) - E (usum cs c.tail x + bsum cs c))).sum
+
+/-- events of one `SameContext` call -/
+def sameEvents (E : Rat → F) (cs : Comps W) (c : List W) (zl : F) (xs : List W) : List (Ev W F) :=
+  xs.map (fun x => Ev.prob c x (E (usum cs c x) / zStep E cs c zl xs)) ++
+    [Ev.bo c (E (bsum cs c) * zl / zStep E cs c zl xs)]
+
+mutual
+/-- `Recurse::SameContext(context, z_lower)` of the order whose stream is the head of `ss` -/
+def sameCtx (E : Rat → F) (cs : Comps W) :
+    Nat → List (List (Rec W)) → List W → F → List (List (Rec W)) × List (Ev W F)
+  | 0, ss, _, _ => (ss, [])
+  | _ + 1, [], _, _ => ([], [])
+  | n + 1, s :: ss, c, zl =>
+    let mine := s.takeWhile (fun r => decide (r.1 = c))
+    let r := extendCtx E cs n ss c (zStep E cs c zl (mine.map (·.2)))
+    (s.dropWhile (fun r => decide (r.1 = c)) :: r.1, sameEvents E cs c zl (mine.map (·.2)) ++ r.2)
+/-- `Recurse::ExtendContext(middle, z_lower)` -/
+def extendCtx (E : Rat → F) (cs : Comps W) :
+    Nat → List (List (Rec W)) → List W → F → List (List (Rec W)) × List (Ev W F)
+  | 0, ss, _, _ => (ss, [])
+  | _ + 1, [], _, _ => ([], [])
+  | _ + 1, [] :: ss, _, _ => ([] :: ss, [])
+  | n + 1, (r :: s) :: ss, middle, zl =>
+    if r.1.tail = middle then
+      let a := sameCtx E cs n ((r :: s) :: ss) r.1 zl
+      let b := extendCtx E cs n a.1 middle zl
+      (b.1, a.2 ++ b.2)
+    else ((r :: s) :: ss, [])
+end
+
+/-! The shape of `ContextOrder`-sorted streams: below every context `c` the records of the orders
+`|c|+1, |c|+2, …` that have `c` as context suffix are contiguous and grouped by the word that
+extends `c` to the left, in one common order of those words.  `X c` = words following `c` in stream
+order, `Y c` = words extending `c` to the left in stream order. -/
+
+/-- streams (own order first) of the subtree of context `c`, `d` orders above its own -/
+def levels (X Y : List W → List W) : Nat → List W → List (List (Rec W))
+  | 0, c => [(X c).map (fun x => (c, x))]
+  | d + 1, c =>
+    (X c).map (fun x => (c, x)) ::
+      (Y c).foldr (fun y acc => List.zipWith (· ++ ·) (levels X Y d (y :: c)) acc) (List.replicate (d + 1) [])
+
+/-- streams of the subtrees of the contexts `y :: c`, `y ∈ ys` -/
+def levelsE (X Y : List W → List W) (d : Nat) (ys : List W) (c : List W) : List (List (Rec W)) :=
+  ys.foldr (fun y acc => List.zipWith (· ++ ·) (levels X Y d (y :: c)) acc) (List.replicate (d + 1) [])
+
+/-- what pass 2 must write for the subtree of `c`, as a structural recursion -/
+def specSame (E : Rat → F) (cs : Comps W) (X Y : List W → List W) :
+    Nat → List W → F → List (Ev W F)
+  | 0, c, zl => sameEvents E cs c zl (X c)
+  | d + 1, c, zl =>
+    sameEvents E cs c zl (X c) ++
+      (Y c).flatMap (fun y => specSame E cs X Y d (y :: c) (zStep E cs c zl (X c)))
+
+end Stream
+
+/-! ### the `ContextOrder`-sorted streams of a concrete union model (universal ids are `Nat`) -/
+section Sorted
+
+/-- lexicographic `≤` on word lists -/
+def lexLe : List Nat → List Nat → Bool
+  | [], _ => true
+  | _ :: _, [] => false
+  | a :: as, b :: bs => if a < b then true else if b < a then false else lexLe as bs
+
+/-- `ContextOrder`: compare the context words from the last to the first, then the predicted word -/
+def ctxOrderLe (a b : Rec Nat) : Bool :=
+  if a.1.reverse = b.1.reverse then decide (a.2 ≤ b.2) else lexLe a.1.reverse b.1.reverse
+
+/-- the merged-probability stream of order `k` after the sort of pass 2 -/
+def sortedStream (cs : Comps Nat) (k : Nat) : List (Rec Nat) :=
+  ((unionGrams cs).filter (fun g => g.1.length + 1 == k)).mergeSort ctxOrderLe
+
+/-- words following context `c`, in stream order -/
+def sortedX (cs : Comps Nat) (c : List Nat) : List Nat :=
+  (explicit cs c).mergeSort (fun a b => decide (a ≤ b))
+
+/-- words `y` such that `y :: c` is the context of some union n-gram, in stream order -/
+def sortedY (cs : Comps Nat) (c : List Nat) : List Nat :=
+  (dedup ((unionGrams cs).filterMap (fun g =>
+    match g.1 with
+    | y :: c' => if c' = c then some y else none
+    | [] => none))).mergeSort (fun a b => decide (a ≤ b))
+
+end Sorted
+
 /-! ## Union vocabulary and renumbering (`MergeVocab`, `UniversalVocab`, `Renumber`) -/
 section Vocab
 
